@@ -125,14 +125,14 @@ def make_mol(name, basis="sto-3g"):
 
 
 def make_calc(mol, model, unrestricted=False, level=0, xmix=0.25, xkernel="GGA_X_PBE", ckernel="GGA_C_PBE",
-              atom_grid=None, nldf_init=None, sdmx_init=None, rhocut=None):
+              atom_grid=None, nldf_init=None, sdmx_init=None, rhocut=None, xc=None):
     from ciderpress.pyscf.dft import make_cider_calc
     ks = dft.UKS(mol) if unrestricted else dft.RKS(mol)
     ks.xc = "PBE"
     ks.grids.level = level
     if atom_grid is not None:
         ks.grids.atom_grid = atom_grid
-    cks = make_cider_calc(ks, model, xmix=xmix, xkernel=xkernel, ckernel=ckernel,
+    cks = make_cider_calc(ks, model, xmix=xmix, xc=xc, xkernel=xkernel, ckernel=ckernel,
                           nldf_init=nldf_init, sdmx_init=sdmx_init, rhocut=rhocut)
     cks.grids.level = level
     if atom_grid is not None:
